@@ -454,14 +454,11 @@ class Q:
             # value but tag it: nothing exact may be claimed about results depending on it
             if a.c < 0:
                 raise _eng.Concretized("negative base ** fractional exponent (complex)")
+            if a.c == 1:
+                return Q._mk(_ONE, inexact=inx)
+            # Python computes this in floating point; nothing exact may be claimed
             val = float(a.c) ** float(e)
-            r = Fraction(val)
-            # perfect powers stay exact (e.g. 4 ** (1/2)); everything else is inexact
-            try:
-                exact = r**e.denominator == a.c**e.numerator
-            except (OverflowError, ZeroDivisionError):  # pragma: no cover
-                exact = False
-            return Q._mk(r, inexact=inx or not exact)
+            return Q._mk(Fraction(val), inexact=True)
         if e == Fraction(1, 2):
             return a.sqrt()
         raise _eng.Concretized(f"symbolic base ** {e}")
